@@ -93,7 +93,7 @@ structure Tx where
   content : Bytes
   inputs : List Input
   witnesses : List Bytes
-  deriving Repr
+  deriving DecidableEq, Repr
 
 /-- `compute_transaction_id`: H (chain_id_be8 ‖ content) -/
 def txId (H : Bytes → Bytes) (chainId : Nat) (tx : Tx) : Bytes := H (natBE 8 chainId ++ tx.content)
@@ -109,6 +109,47 @@ def checkSignaturesNoCache (H : Bytes → Bytes) (chainId : Nat) (tx : Tx) : Exc
   match checkFrom recover predOwner (txId H chainId tx) tx.witnesses tx.inputs 0 none with
   | .error e => .error e
   | .ok _ => .ok ()
+
+/-! #### the cached id and the checked-transaction entry -/
+
+/-- a transaction OBJECT: its content plus the metadata cache (`metadata.common.id`), which the public field
+mutators (`outputs_mut`, `inputs_mut`, `script_mut`, `policies_mut`, …) do NOT invalidate -/
+structure CachedTx where
+  tx : Tx
+  cachedId : Option Bytes
+  deriving DecidableEq, Repr
+
+/-- `UniqueIdentifier::id`: `if let Some(id) = self.cached_id() { return id }`, else compute from the content -/
+def idOf (H : Bytes → Bytes) (chainId : Nat) (t : CachedTx) : Bytes :=
+  match t.cachedId with
+  | some i => i
+  | none => txId H chainId t.tx
+
+/-- `Cacheable::precompute`: `self.metadata = None;` then `self.metadata = Some(compute(self, chain_id))` (the
+computation calls `id()` on the object whose metadata was just cleared) -/
+def precompute (H : Bytes → Bytes) (chainId : Nat) (t : CachedTx) : CachedTx :=
+  let cleared : CachedTx := { t with cachedId := none }
+  { cleared with cachedId := some (idOf H chainId cleared) }
+
+/-- `FormatValidityChecks::check_signatures` on an object: the id is `self.id(chain_id)` (cached if present) -/
+def checkSignaturesObj (H : Bytes → Bytes) (chainId : Nat) (t : CachedTx) : Except SigErr Unit :=
+  match checkFrom recover predOwner (idOf H chainId t) t.tx.witnesses t.tx.inputs 0 (some []) with
+  | .error e => .error e
+  | .ok _ => .ok ()
+
+/-- the order of the first steps of every `IntoChecked::into_checked_basic` impl (tied to the six bodies by the
+translator): the metadata is recomputed UNCONDITIONALLY before anything is checked -/
+def intoCheckedOrder : List String := ["precompute", "check_without_signatures"]
+
+/-- `into_checked_basic(..)?.check_signatures(chain_id)` as far as the id and the signatures are concerned
+(`basicOk` = verdict of `check_without_signatures` and the balance computation, which do not look at witnesses) -/
+def intoCheckedSignatures (H : Bytes → Bytes) (chainId : Nat) (basicOk : Bool) (t : CachedTx) :
+    Option (Except SigErr CachedTx) :=
+  let t' := precompute H chainId t
+  if !basicOk then none else
+  match checkSignaturesObj recover predOwner H chainId t' with
+  | .error e => some (.error e)
+  | .ok _ => some (.ok t')
 
 end Sig
 
